@@ -717,6 +717,8 @@ class Mini:
             return list(v[1])
         if isinstance(v, Iter):
             return v.rest()
+        if isinstance(v, tuple) and v and v[0] == "itermut":
+            return [Ref(v[1], i) for i in range(len(v[1]))]
         if isinstance(v, BTree):
             return v.items()
         if isinstance(v, tuple) and v and v[0] == "rangeincl":
@@ -802,6 +804,17 @@ class Mini:
             r = self.try_from(ga, args[0], swap=p.endswith("try_from"))
             if r is not None:
                 return r
+        if p == "std::string::String::from_utf8" and isinstance(args[0], list):
+            return ("Ok", args[0])  # a String is modelled by its bytes (UTF-8 validation is std's)
+        if p == "std::io::Write::write_all" and len(args) == 2:
+            tgt = args[0]
+            if isinstance(tgt, Sink) and isinstance(args[1], list):
+                tgt.out.extend(args[1])
+                return ("Ok", ())
+            if isinstance(tgt, list) and isinstance(args[1], list):
+                tgt.extend(args[1])
+                return ("Ok", ())
+            raise Unsupported("write_all operands")
         if p == "std::mem::size_of":
             ga = H.call_gargs(n)
             if ga and ga[0] in INT_BITS:
@@ -875,6 +888,12 @@ class Mini:
                 recv.extend(args[0])
                 return ()
         if p.startswith("std::array::<impl [T; N]>::") and nm in ("as_slice", "as_mut_slice"):
+            return recv
+        if p in ("std::string::String::as_bytes", "std::str::<impl str>::as_bytes", "std::string::String::as_str", "std::string::String::into_bytes") and isinstance(recv, list):
+            return recv
+        if p in ("std::string::String::len", "std::str::<impl str>::len") and isinstance(recv, list):
+            return len(recv)
+        if p.startswith("std::option::Option::<T>::as_deref") or p == "std::ops::Deref::deref":
             return recv
         if p.startswith("std::slice::<impl [T]>::"):
             if nm == "len":
@@ -990,6 +1009,20 @@ class Mini:
         if p == "std::iter::traits::iterator::Iterator::next":
             if isinstance(recv, Iter):
                 return recv.next()
+        if p == "std::iter::traits::iterator::Iterator::flatten":
+            out = []
+            for x in self.iterate(recv):
+                if isinstance(x, Ref):
+                    x = x.get()
+                if x == "None":
+                    continue
+                if isinstance(x, tuple) and len(x) == 2 and x[0] == "Some":
+                    out.append(x[1])
+                elif isinstance(x, list):
+                    out.extend(x)
+                else:
+                    raise Unsupported("flatten over non-Option items")
+            return ("iter", out)
         if p == "std::iter::traits::iterator::Iterator::zip":
             return ("iter", list(zip(self.iterate(recv), self.iterate(args[0]))))
         if p == "std::iter::traits::iterator::Iterator::fold":
